@@ -209,7 +209,7 @@ for _ty, (_part, _lo, _hi, _sg, _bits) in NTYPES.items():
         if (_op in ("shl", "shr") and _ty == "dbl") or (_op == "expw" and (_sg or _ty == "bool")) or (_op in ("saddf", "sremo") and _ty in ("dbl", "bool")):
             continue
         VARIANTS["nat.%s.%s" % (_op, _ty)] = dict(_v(_m, "nat:%s:%s" % (_op, _ty), None, _nres, _part), mres=_mres)
-VARIANTS["nat.cast"] = dict(_v("cast", "nat:cast:", None, 9, 3))
+VARIANTS["nat.cast"] = dict(_v("cast", "nat:cast:", None, 10, 3))
 VARIANTS["nat.consts"] = dict(_v("maxconst", "nat:consts:", None, 5, 3), mres=3)
 
 MODEL_PICK = {"divr": 1, "divr_w": 1}      # first model token compared (the model returns (q, r), the call form only r)
@@ -423,7 +423,9 @@ def oracle_native(spec, K, a):
     if op == "cast":
         u = [x % (1 << b) for b in (8, 16, 32, 64)]
         sg = [(v - (1 << b) if v >= 1 << (b - 1) else v) % W64 for v, b in zip(u, (8, 16, 32, 64))]
-        return u + sg + [1 if x else 0]
+        sxx = sval(x, K)
+        mag = abs(sxx) % W64                       # (double)rint: sign kept, magnitude reduced to its lowest limb (rrint.h, d984652)
+        return u + sg + [1 if x else 0, ((-mag if sxx < 0 else mag) % W64) if mag < 2**53 else None]
     if op == "consts":
         c31 = SRC_CONST.get("thirtyonepointfive", 3037000499)
         fl = c31 if K == 6 else c31 << ((1 << (K - 1)) - 32)
@@ -510,7 +512,7 @@ NAT_FORMS = {
     "shl": "left_shift(a,b,T) a<<T a<<=T left_shift(a,a,T) rint<<T rint<<=T",
     "shr": "right_shift(a,b,T) a>>T a>>=T right_shift(a,a,T) rint>>T rint>>=T",
     "expw": "exp_mod(a,b,T,n)",
-    "cast": "operator T() of ruint<K> and rint<K> for bool, (un)signed char/short/int/long/long long, float, double",
+    "cast": "operator T() of ruint<K> and rint<K> for bool, (un)signed char/short/int/long/long long, float, double (the sign of a negative rint kept)",
     "consts": "ruint<K>::maxCardinality maxElement maxFFLAS, rint<K>::maxElement maxCardinality",
     "conv.to_ruint": "mpz_to_ruint mpz_t_to_ruint Caster(ruint&,Integer) istream>>ruint ruint=Integer (ruint)Integer ruint(Integer) "
                      "placement-new ruint(Integer) ruint(const char*) mpz_to_ruint twice on one object",
@@ -1018,6 +1020,8 @@ def fmt_exp(spec, vals):
         return [str(v) for v in vals]
     if spec.startswith("nat:ctor:") and len(vals) == 3 and vals[2] is None:
         return fmt_exp("", vals[:2]) + ["x"]
+    if spec.startswith("nat:cast:") and vals[-1] is None:
+        return fmt_exp("", vals[:-1]) + ["big"]
     if spec in DEC_RESULTS:
         return [str(v) for v in vals]
     return [tok(hex(v)[2:]) if v >= 0 else "-" + tok(hex(-v)[2:]) for v in vals]
@@ -1389,7 +1393,8 @@ def directed_cases(rng, tier):
                                 out.append(("nat.cmp." + t, K, [x, c], True))
         for lab, x in core + rest:
             out.append(("nat.cast", K, [x], True))
-        for x in [0x80, 0xff7f, 0x8000, 0xffff7fff, 0x80000000, 0x7fffffffffffffff, 1 << 63, (1 << 64) + 0x80]:
+        for x in [0x80, 0xff7f, 0x8000, 0xffff7fff, 0x80000000, 0x7fffffffffffffff, 1 << 63, (1 << 64) + 0x80,
+                  -1, -5, -(1 << 24) + 1, -(1 << 24) - 1, -(1 << 53) + 1, -(1 << 53), -(1 << 63), -(1 << 64) - 3, (1 << 53) - 1]:
             out.append(("nat.cast", K, [x % Bk], True))
         out.append(("nat.consts", K, [0], True))
         # ---- conversions on a used destination: prev = garbage / all ones / the previous LARGER value; sources 0, small, one limb
